@@ -32,10 +32,12 @@ package scan
 // + the control flow of Next, which (a) exercised exhaustively on the same code.
 
 import (
+	"context"
 	"fmt"
 	"math"
 	"math/big"
 	"math/bits"
+	"net"
 	"reflect"
 	"sort"
 	"strconv"
@@ -598,6 +600,9 @@ func verifC04(c *drv.Ctx) {
 	for _, cr := range x.Crashes {
 		c.Infra("harness thread crashed: %v", cr.Value)
 	}
+	if c.Shard == 0 && !c.Expired() && !c04hung {
+		c04consumers(c, fail)
+	}
 	if !x.MainDone && len(x.Crashes) == 0 {
 		c.Infra("enumeration did not run to its end (steps=%d livelock=%v)", x.Steps, x.Livelock)
 	}
@@ -1042,5 +1047,115 @@ func c04positioned(c *drv.Ctx, rows []c04row, u *c04unit, fail func(byte, int, s
 			continue
 		}
 		c.Outcome("e:conforms")
+	}
+}
+
+// (f) The two consumers of the iterator in this package compute the range size themselves, from a pair of
+// ports and from a prefix length: every port of a range exactly once (the ranges around every width
+// boundary, 0-65535 included), and for subnets from /0 down the first 4096 addresses (all of them for
+// small subnets) in range, distinct and without error. Real generators, real goroutines and channels
+// (under the controlled runtime, default schedule); the machine word is 32 bits wide in part c04-386.
+func c04consumers(c *drv.Ctx, fail func(sec byte, row int, key, desc string, replay any)) {
+	ctx := context.Background()
+	// every case is an execution of its own; it ends when the harness thread is done, whatever the
+	// generator's goroutine is still doing (a walk over 2^32 addresses is not waited for)
+	run := func(f func()) {
+		x := vs.Run(nil, func(s *vs.Sched) {
+			s.Horizon = math.MaxInt / 2
+			s.StopAtMain = true
+			s.RandFn = func(_ string, _ uint64, n uint64) uint64 { return c04rand.next(n) }
+		}, f)
+		for _, cr := range x.Crashes {
+			fail('f', 999, "f:crash", fmt.Sprintf("a generator crashed: %v", cr.Value), nil)
+		}
+	}
+	for pi, pr := range [][2]uint16{{0, 65535}, {1, 65535}, {0, 65534}, {0, 0}, {65535, 65535}, {32767, 32768}, {0, 32767}, {32768, 65535}, {255, 256}, {0, 255}, {256, 511}} {
+		c04rand = c04src{q: [2]uint64{12345, 6789}}
+		want := int(pr[1]) - int(pr[0]) + 1
+		seen := make([]bool, 65536)
+		n, bad := 0, ""
+		run(func() {
+			ch, err := NewPortGenerator().Ports(ctx, &Range{Ports: []*PortRange{{StartPort: pr[0], EndPort: pr[1]}}})
+			if err != nil {
+				bad = "the generator refuses the range: " + err.Error()
+			} else {
+				for pg := range ch {
+					p, e := pg.GetPort()
+					switch {
+					case e != nil:
+						bad = "error instead of a port: " + e.Error()
+					case p < pr[0] || p > pr[1]:
+						bad = fmt.Sprintf("port %d outside the range", p)
+					case seen[p]:
+						bad = fmt.Sprintf("port %d twice", p)
+					}
+					if bad != "" {
+						break
+					}
+					seen[p] = true
+					n++
+				}
+			}
+		})
+		if bad == "" && n != want {
+			bad = fmt.Sprintf("%d ports generated, the range has %d", n, want)
+		}
+		c.Eval(1)
+		c.Nontrivial(1)
+		if bad != "" {
+			fail('f', pi, fmt.Sprintf("f:ports:%d-%d", pr[0], pr[1]), fmt.Sprintf("port range %d-%d through the real port generator: %s", pr[0], pr[1], bad), map[string]any{"part": "c04", "ports": fmt.Sprintf("%d-%d", pr[0], pr[1])})
+		}
+	}
+	for si, sn := range []string{"0.0.0.0/0", "0.0.0.0/1", "128.0.0.0/1", "192.0.0.0/2", "10.0.0.0/8", "10.1.0.0/16", "10.1.16.0/20", "10.1.2.0/24", "10.1.2.4/31", "10.1.2.5/32", "255.255.255.252/30"} {
+		_, ipnet, _ := net.ParseCIDR(sn)
+		ones, _ := ipnet.Mask.Size()
+		size := uint64(1) << uint(32-ones)
+		take := size
+		if take > 4096 {
+			take = 64 // a large subnet is not walked to its end: the first addresses, then the execution ends
+		}
+		c04rand = c04src{q: [2]uint64{424242, 171717}}
+		seen := map[[4]byte]bool{}
+		bad := ""
+		run(func() {
+			ch, err := NewIPGenerator().IPs(ctx, &Range{DstSubnet: ipnet})
+			if err != nil {
+				bad = "the generator refuses the subnet: " + err.Error()
+			} else {
+				for uint64(len(seen)) < take {
+					g, ok := <-ch
+					if !ok {
+						bad = fmt.Sprintf("the stream ended after %d addresses, the subnet has %d", len(seen), size)
+						break
+					}
+					ip, e := g.GetIP()
+					var k [4]byte
+					copy(k[:], ip.To4())
+					switch {
+					case e != nil:
+						bad = "error instead of an address: " + e.Error()
+					case ip.To4() == nil || !ipnet.Contains(ip):
+						bad = fmt.Sprintf("address %v outside the subnet", ip)
+					case seen[k]:
+						bad = fmt.Sprintf("address %v twice", ip)
+					}
+					if bad != "" {
+						break
+					}
+					seen[k] = true
+				}
+				if bad == "" && take == size {
+					if g, ok := <-ch; ok {
+						ip, _ := g.GetIP()
+						bad = fmt.Sprintf("a further address %v after all %d of the subnet", ip, size)
+					}
+				}
+			}
+		})
+		c.Eval(1)
+		c.Nontrivial(1)
+		if bad != "" {
+			fail('f', 100+si, "f:subnet:"+sn, fmt.Sprintf("subnet %s through the real address generator (first %d addresses): %s", sn, take, bad), map[string]any{"part": "c04", "subnet": sn})
+		}
 	}
 }
